@@ -29,7 +29,7 @@ MethodsC01 == { Mth(f, v, r, h, d, <<>>) : f \in {"", "f2"}, v \in {"GET", "POST
 
 \* the core of the path space: one controller, two methods; every pairing of slash spellings and verbs on (possibly) the same path
 CtrlsC01core == { Ctl("p1", "f1", "AController", pre, "A", <<>>) : pre \in {"/a", "/a/"} }
-MethodsC01core == { Mth("", v, r, FALSE, FALSE, <<>>) : v \in {"GET", "POST", "DELETE"}, r \in {"/x", "//x", "/", "/{id}"} }
+MethodsC01core == { Mth("", v, r, FALSE, FALSE, <<>>) : v \in {"GET", "POST", "DELETE"}, r \in {"/x", "//x", "/", "/{id}", "/{key}"} }
 
 \* ---- C15 at project level: few verbs, overlapping literal/parameter routes under prefixes that create or remove the overlap -----
 CfgsC15 == { Cfg("gin", "3.0.0", FALSE, NoSec, <<"s1">>) }
